@@ -92,7 +92,7 @@ func c21sBuild(env *vfEnv, c c21sScenario) vsched.Scenario {
 	vfMust(db.center.MergeBlockWriteDatabase(db.newWriter(chain[2])))
 	vfSettle()
 
-	h := &c21History{cfg: c21Config{name: c.id()}, chain: chain, n0: cx.Len()}
+	h := &c21History{cfg: c21Config{name: c.id()}, chain: chain, n0: cx.Len(), acked0: 1}
 
 	var merged bool
 
